@@ -67,13 +67,14 @@ class Workspace:
             raise BuildError('clang failed for %s:\n%s' % (path, r.stdout[-3000:]))
         return out
 
-    def irx(self, bc, opaque=(), prefixes=('w_', 'ref_'), noopt=False, all_globals=False, dump_ll=False):
+    def irx(self, bc, opaque=(), prefixes=('w_', 'ref_'), noopt=False, all_globals=False, dump_ll=False, no_unroll=False):
         out = bc[:-3] + '.json'
         cmd = [IRX, bc, out]
         if opaque: cmd += ['--opaque', ','.join(opaque)]
         cmd += ['--prefix', ','.join(prefixes)]
         if noopt: cmd.append('--no-opt')
         if all_globals: cmd.append('--all-globals')
+        if no_unroll: cmd.append('--no-unroll')
         if dump_ll: cmd += ['--dump-ll', bc[:-3] + '.ll']
         r = subprocess.run(cmd, stdout=subprocess.PIPE, stderr=subprocess.STDOUT, text=True)
         if r.returncode != 0:
